@@ -405,4 +405,26 @@ V.append({'id': 'c08-lock-cycle', 'prop': 'C08', 'kind': 'firing', 'tier': 'thor
           'new': "        with self._lock:\n            self.broadcast_event(make_update(moduleobj.name, pobj))",
           'expect': 'lock-order graph is acyclic'})
 
+silent('c01-range-test-negated-form', 'C01', DTY,
+       "        if self.min <= value <= self.max:\n            return value\n        raise RangeError(f'{value!r} must be between {self.min} and {self.max}')",
+       "        if not (self.min <= value <= self.max):\n            raise RangeError(f'{value!r} must be between {self.min} and {self.max}')\n        return value")
+firing('c01-range-test-rejecting-form', 'C01', DTY,
+       "        if self.min <= value <= self.max:\n            return value\n        raise RangeError(f'{value!r} must be between {self.min} and {self.max}')",
+       "        if value < self.min or value > self.max:\n            raise RangeError(f'{value!r} must be between {self.min} and {self.max}')\n        return value",
+       'value returned only on the accepting branch')
+silent('c13-clear-only-when-set', 'C13', MB,
+       "                self.triggerPoll.wait(wait_time)\n                self.triggerPoll.clear()\n                continue",
+       "                if self.triggerPoll.wait(wait_time):\n                    self.triggerPoll.clear()\n                continue")
+silent('c10-optional-guard-other-form', 'C10', MB,
+       "            if aobj.optional:\n                continue\n            # make a copy of the Parameter/Command object",
+       "            if aobj.optional:\n                continue  # not implemented\n            # make a copy of the Parameter/Command object")
+silent('c16-sleep-before-flush', 'C16', IO,
+       "                    if self.wait_before:\n                        time.sleep(self.wait_before)\n                    garbage = self._conn.flush_recv()\n                    if garbage:\n                        self.comLog('garbage: %r', garbage)\n                    self._conn.send(request)",
+       "                    if self.wait_before > 0:\n                        time.sleep(self.wait_before)\n                    garbage = self._conn.flush_recv()\n                    if garbage:\n                        self.comLog('garbage: %r', garbage)\n                    self._conn.send(request)")
+silent('c12-dispatch-tuple-copy', 'C12', CL,
+       "        for cbfunc in list(cblist):", "        for cbfunc in tuple(cblist):")
+silent('c06-constant-none-test-swapped', 'C06', DP,
+       "        if pobj.constant is not None:\n            # really needed? we could just construct a readreply instead....",
+       "        if not (pobj.constant is None):\n            # really needed? we could just construct a readreply instead....")
+
 VARIANTS = V
